@@ -128,7 +128,7 @@ func (cx *Connection) Write(p []byte) (n int, err error) {
 }
 
 // Wrap wraps conn in a new Connection based on cx (reusing
-// cx's existing buffer and context). This is useful after
+// cx's existing context). This is useful after
 // a connection is wrapped by a package that does not support
 // our Connection type (for example, `tls.Server()`); conn is
 // expected to read from cx.
@@ -143,10 +143,10 @@ func (cx *Connection) Wrap(conn net.Conn) *Connection {
 	wrapped.bytesWritten.Store(cx.bytesWritten.Load())
 	// conn reads through cx, so any bytes still unread in cx's buffer will be
 	// delivered by cx itself; handing them to the new Connection as well would
-	// make them appear twice in the stream. Only a drained buffer is reused.
-	if cx.offset == len(cx.buf) {
-		wrapped.buf = cx.buf[:0]
-	}
+	// make them appear twice in the stream. The new Connection doesn't reuse the
+	// storage of a drained buffer either: it may outlive cx's use of it (a tee
+	// branch keeps matching after the buffer went back to the pool), and two
+	// Connections wrapped from the same cx would prefetch into the same array.
 	return wrapped
 }
 
